@@ -74,8 +74,10 @@ def noEllMask : Ix → Bool
 /-- operation classes for which the dispatcher as written keeps results aligned, for every kind of value -/
 def goodOp : TOp → Bool
   | .ew | .copy | .deepcopy | .pickle | .iter | .pick _ => true
-  | .flip dims => dims.all (fun d => decide (1 ≤ d))
-  | .roll _ d => decide (1 ≤ d)
+  | .flip _ => true
+  | .roll _ _ => true
+  | .permute _ => true
+  | .transpose _ _ => true
   | .getitem (.single _) => true
   | .getitem (.tuple l) => l.all noEllMask
   | .splitL _ d => dim0 d
@@ -86,7 +88,7 @@ def goodOp : TOp → Bool
   | .split _ d => dim0 d
   | .tsplitL _ d => dim0 d
   | .narrowF d _ _ => decide (1 ≤ d)
-  | .indexSelect d _ => decide (1 ≤ d)
+  | .indexSelect _ _ => true
   | .select d _ => decide (1 ≤ d)
   | .reduce all dims _ => !all && dims.all (fun d => decide (1 ≤ d))
   | .interp _ => true
